@@ -35,7 +35,9 @@ V_TENSOR = ["splitUniform", "splitNonUniform", "splitEqual", "splitUnEqual", "tr
             "flatten", "merge", "unflatten", "flatten_flattened", "updateCoords", "updatePayloads", "deepcopy"]
 V_FIBER = ["f_splitUniform", "f_splitEqual", "f_splitNonUniform", "f_splitUnEqual", "f_swap", "f_flatten", "f_merge",
            "f_unflatten", "f_add_fiber", "f_mul_fiber", "f_add_fiber", "f_add_fiber", "f_add_scalar", "f_mul_scalar", "f_copy", "f_copy_noowner",
-           "f_deepcopy", "f_truediv", "f_floordiv", "f_fromFiber"]
+           "f_deepcopy", "f_truediv", "f_floordiv", "f_fromFiber",
+           # (the copying forms whose sharing only shows for particular arguments / trees get a second draw)
+           "f_mul_scalar", "f_add_scalar", "f_copy_noowner", "f_fromFiber"]
 R_OPS = ["getPayload", "getPosition", "iterators", "coiterate", "eq", "queries", "strings", "uncompress", "dump",
          "fiber2dict", "format", "image", "image"]
 
@@ -67,7 +69,7 @@ def cases(draw):
          "fmtU": draw(st.booleans()),
          "alevel": draw(st.sampled_from([1, 2, 0, 1])),      # fiber arithmetic: 0 = at a leaf fiber, else interior
          # (the neutral elements 1 and 0 are "nothing to do" arguments: the result is a new object all the same)
-         "val": draw(st.sampled_from([3, 5, -2, 7, 1, 0, 1])),
+         "val": draw(st.sampled_from([3, 5, -2, 1, 0, 1, 1])),
          "other": draw(st.lists(st.tuples(st.integers(0, 5), st.sampled_from([1, 2, 4, -1, 0])), max_size=4))}
     shape = [draw(st.integers(1, 5)) for _ in range(d)]
     default = draw(st.sampled_from([0, 0, 0, 2]))
